@@ -77,6 +77,8 @@ impl ConfigCase {
 /// component alphabet chosen to collide as byte prefixes
 pub const COMPONENTS: &[&str] = &[
     "a", "ab", "app", "app2", "app-web", "lib", "lib2", "x", "src", "é", "core", "a.b",
+    // a combining accent (NFD), a soft hyphen, a zero-width joiner: legal in file names
+    "cafe\u{301}", "co\u{ad}op", "z\u{200d}w",
 ];
 const FILES: &[&str] = &["f.rs", "README.md", "x", "main.go", "a b.txt"];
 
@@ -199,6 +201,18 @@ pub fn config(rng: &mut Rng, o: &GenOpts) -> ConfigCase {
             })
             .collect();
         let path = if slashed[pi] { format!("{}/", p) } else { p.clone() };
+        // `uses` / `ignores` entries naming a directory may be written with a trailing slash too
+        let slash_entry = |rng: &mut Rng, e: String| -> String {
+            if o.allow_slash && !e.is_empty() && !e.ends_with('/') && !e.contains("//") && rng.chance(1, 10) {
+                format!("{}/", e)
+            } else {
+                e
+            }
+        };
+        let uses: Vec<String> = uses;
+        let uses = uses.into_iter().map(|e| slash_entry(rng, e)).collect();
+        let ignores: Vec<String> = ignores;
+        let ignores = ignores.into_iter().map(|e| slash_entry(rng, e)).collect();
         targets.push(TargetSpec { path, uses, ignores });
     }
     rng.shuffle(&mut targets);
